@@ -9,7 +9,7 @@ RULE = ("operation sequences (value, error, call, is_computed, set_value, set_er
         "on one future of each of 12 kinds (Future with returning/raising provider, ConstFuture, ErrorFuture, AsyncTask returning/raising/blocking on a batch, "
         "batch with succeeding/failing flush, item of such batches, DebugBatchItem), compared step by step with an explicit three-state reference model; "
         "non-trivial = the sequence completes the future and then performs at least one further set_* or read, with at least one subscriber; distinct = distinct case JSON. "
-        "scheduler-driven: generated programs in which the same uncomputed Future(provider) object sits in >= 2 places of one computation; non-trivial = >= 2 places and the provider ran")
+        "scheduler-driven: generated programs in which the same uncomputed Future(provider) object sits in >= 2 places of one computation; non-trivial = >= 2 places and the provider ran Subscribers may also unsubscribe themselves or complete other futures while being notified.")
 ASSUMPTIONS = ["error() on a pending lazy Future whose provider raises propagates that exception once (and stores it): the property constrains reports 'from then on'",
                "ConstFuture/ErrorFuture use a sinking hook: subscribers added after completion are never called, which the property allows",
                "after reset_unsafe() only Future(provider) is asked to recompute naturally; other kinds are completed again through set_value/set_error only"]
